@@ -39,6 +39,13 @@ def shapes(tier):
             for mv in (None, 'first'):
                 out.append({'table': tb, 'len': ln, 'special': 'default' if mv != 'first' else 'bos_eos', 'max_vocab': mv})
     out.append({'table': 'chain', 'len': 3, 'special': 'bos_eos', 'wide': True, 'max_vocab': None})
+    # texts that contain the spelling of a special token (ignored on both sides: it is ordinary text) next to
+    # symbolic characters (letters / whitespace of the table's alphabet)
+    P, E = [ord(c) for c in '<pad>'], [ord(c) for c in '<eos>']
+    for tb in ('chain', 'empty'):
+        for sp in ('default', 'bos_eos'):
+            for t in (['x', 'x'] + P, P + ['x', 'x'], ['x'] + E + ['x'], ['x', 'x'] + P[:4] + ['x']):
+                out.append({'table': tb, 'len': len(t), 'special': sp, 'max_vocab': None, 'template': t})
     out.sort(key=lambda s: -s['len'])
     return out
 
